@@ -295,4 +295,37 @@ Proof.
   - destruct valid; [specialize (Hv eq_refl); discriminate|reflexivity].
 Qed.
 
+Lemma kget_run_none (B : Z -> body S) use_bc j h : forall r,
+  kget j (r_st r) = None -> kget j (r_st (run B use_bc r h)) = None.
+Proof.
+  induction h as [|c h IH]; intros r H; [exact H|]. cbn [run fold_left]. apply IH.
+  rewrite kget_run_cycle, H. reflexivity.
+Qed.
+
+Lemma same_for_refl j h : Forall2 (same_for j) h h.
+Proof. induction h; constructor; [repeat split|assumption]. Qed.
+
+Definition clear_log (r : run_state S) : run_state S := mkR (r_st r) (r_bc r) (r_primed r) [].
+Definition fresh_state (ndict : nat) (keys : list Z) (bc : option Z) : run_state S :=
+  mkR (map (fun k => (k, kinit ndict)) keys) bc false [].
+
+(* readd_is_fresh: once key j is absent (after ANY history h1), everything that happens to j afterwards -
+   under ANY continuation h2 - is exactly what happens to j in a map that has just been created (same
+   broadcast value): no state, validity or schedule of the earlier life survives. *)
+Lemma readd_fresh (B : Z -> body S) use_bc ndict keys h1 h2 j ks :
+  kget j (r_st (run B use_bc (start_state ndict keys) h1)) = Some ks -> k_inst ks = None ->
+  let r1 := clear_log (run B use_bc (start_state ndict keys) h1) in
+  key_trace j (r_log (run B use_bc r1 h2)) = key_trace j (r_log (run B use_bc (fresh_state ndict keys (r_bc r1)) h2)).
+Proof.
+  intros Hk Hn r1.
+  assert (Hinit : ks = kinit ndict) by (eapply absent_is_initial; eassumption). subst ks.
+  assert (Hfresh : kget j (r_st (fresh_state ndict keys (r_bc r1))) = Some (kinit ndict)).
+  { destruct (kget j (r_st (fresh_state ndict keys (r_bc r1)))) as [x|] eqn:E.
+    - apply (kget_start ndict keys j x) in E. subst x. reflexivity.
+    - exfalso. assert (E' : kget j (r_st (start_state (S:=S) ndict keys)) = None) by exact E.
+      apply (kget_run_none B use_bc j h1) in E'. congruence. }
+  apply (isolated_gen B B use_bc j h2 h2 r1 (fresh_state ndict keys (r_bc r1))); [reflexivity| |apply same_for_refl|reflexivity].
+  split; [|reflexivity]. cbn [r1 clear_log r_st]. rewrite Hk, Hfresh. reflexivity.
+Qed.
+
 End Facts.
